@@ -777,6 +777,35 @@ theorem c20_sibling_proxy_drops_limits_witness :
     siblingListenExpr { c with readLimit := 0, writeLimit := 0 } = listenExpr { c with readLimit := 0, writeLimit := 0 } := by
   decide
 
+/-! ### The text of a limit (`SizeSuffix.Set`): what R and W are
+
+The bound above is about the rate the limiter was built with; these say that rate is the number the
+operator wrote.  `sizeOf ip frac mult` is exact: the integer text gives `ip·mult`, a trailing zero of
+the fraction changes nothing, and — the witness — a LEADING zero of the fraction does: `0.05M` is
+52 428 B/s, not the 524 288 B/s of `0.5M` (a parser that scales the fraction by the digits of its
+parsed value instead of the length of its digit string builds a limiter ten times too fast). -/
+
+theorem c20_size_integer_text (ip mult : Nat) : sizeOf ip [] mult = ip * mult := by
+  simp [sizeOf, digitsVal]
+
+theorem c20_size_trailing_zero (ip mult : Nat) (frac : List Nat) :
+    sizeOf ip (frac ++ [0]) mult = sizeOf ip frac mult := by
+  unfold sizeOf digitsVal
+  simp only [List.length_append, List.length_cons, List.length_nil, List.foldl_append,
+    List.foldl_cons, List.foldl_nil, Nat.add_zero, Nat.pow_succ, Nat.zero_add]
+  have h : (ip * (10 ^ frac.length * 10) + List.foldl (fun a d => a * 10 + d) 0 frac * 10) * mult
+      = ((ip * 10 ^ frac.length + List.foldl (fun a d => a * 10 + d) 0 frac) * mult) * 10 := by
+    rw [← Nat.mul_assoc, ← Nat.add_mul, Nat.mul_assoc, Nat.mul_comm 10 mult, ← Nat.mul_assoc]
+  rw [h, Nat.mul_div_mul_right _ _ (by decide : 0 < 10)]
+
+theorem c20_size_leading_zero_witness :
+    sizeOf 0 [0, 5] (2 ^ 20) = 52428 ∧ sizeOf 0 [5] (2 ^ 20) = 524288 ∧
+    sizeOf 1 [0, 5] (2 ^ 20) = 1101004 ∧ sizeOf 1 [5] (2 ^ 20) = 1572864 ∧
+    sizeOf 1 [0, 0, 5] (2 ^ 30) = 1079110533 := by decide
+
+example : sizeOf 1 [5] (2 ^ 10) = 1536 ∧ sizeOf 3 [6] (2 ^ 30) = 3865470566 ∧ sizeOf 0 [5] (2 ^ 10) = 512 := by
+  decide
+
 /-! ### Tie to the source: `newRateLimiter` as translated from `ratelimit/ratelimit.go`
 
 `Model/C20Gen.lean` is regenerated on every run by `harness/srcgen` (statement-by-statement
